@@ -117,12 +117,12 @@ def build(tier="quick", seed=0):
 
     def entry_stream(name_v, fields_v):
         packer = it.call(pk.g["RecordPacker"], [], {})
-        tree = ("arr", [("leaf", 2), ("arr", [("leaf", name_v), ("arr", [("arr", [("leaf", t), ("leaf", f)]) for t, f in fields_v])])])
+        tree = ("arr", [("leaf", 2), ("arr", [("leaf", name_v), ("arr", [("arr", [("leaf", t), ("leaf", f)]) for t, f in fields_v]) if fields_v is not None else ("leaf", None)])])
         return it.call(it.getattr_(packer, "unpack_obj"), [14, MPBytes(tree)], {})
 
     def entry_json(name_v, fields_v):
         packer = it.call(jp.g["JsonRecordPacker"], [], {})
-        return it.call(it.getattr_(packer, "unpack_obj"), [{"_type": "recorddescriptor", "_data": [name_v, [[t, f] for t, f in fields_v]]}], {})
+        return it.call(it.getattr_(packer, "unpack_obj"), [{"_type": "recorddescriptor", "_data": [name_v, [[t, f] for t, f in fields_v] if fields_v is not None else None]}], {})
 
     def entry_avro_doc(name_v, fields_v):
         import json
@@ -334,6 +334,22 @@ def build(tier="quick", seed=0):
         if extra:
             return Result("C06.exec_sites", "undecided", f"new dynamic-code site(s) {sorted(extra)}: whether text from a definition can reach them is not decided by this pack")
         return Result("C06.exec_sites", "proved", paths=len(found))
+
+    # ---- 4a. a definition that arrives WITHOUT a field list (fields = nil / null): its name text must still be a type name - it is never taken for the
+    #          deprecated one-string definition form ("name\ntype field") and parsed
+    for entry in ("stream", "json"):
+        for label, name_text in (("a type name followed by lines of 'type field'", "c06/y\nstring a\nvarint b"), ("a plain valid type name", "c06/y"), ("a name with a trailing definition line", "c06/y\nos.system a")):
+            name = f"C06.nofields[{entry}, {label}]"
+
+            def th(entry=entry, name_text=name_text):
+                try:
+                    d = ENTRIES[entry](name_text, None)
+                except PyRaise as e:
+                    return "rejected", e.cls_name
+                return "accepted", it.getattr_(d, "name") if isinstance(d, PObj) else repr(d)
+
+            pack.add(Obligation(name, lambda tier, name=name, th=th, name_text=name_text: prove_paths(name, th, lambda p, name_text=name_text: (p.value[0] == "rejected" or (p.value[1] == name_text and "\n" not in name_text), f"a definition without a field list whose name text is {name_text!r} was accepted as the type {p.value[1]!r}")),
+                                replay=lambda w, entry=entry, name_text=name_text: {"call": "c06_nofields", "args": {"entry": entry, "name": name_text}}, functions=FU_GATE, mode="representative name texts"))
 
     # ---- 4b. what a reader has already accepted never lets a later definition in unchecked: crafted descriptor frames whose name and
     #          unseparated field text (and therefore identifier hash) equal those of a legitimate definition read before
